@@ -347,8 +347,8 @@ def cache_cases(draw, modules=('std', 'safe'), algos=tuple(H.ALGOS), maxsizes=(1
     }
     if attach_later:
         case['attach_later'] = True
-    elif relpath_pct and backend.split('_', 1)[-1].startswith('dir_') and draw(st.integers(0, 99)) < relpath_pct:
-        # directory archive named by a relative path, and the program changes its working directory during the history
+    elif relpath_pct and backend.split('_', 1)[-1].startswith(('dir_', 'file_')) and draw(st.integers(0, 99)) < relpath_pct:
+        # directory / single-file archive named by a relative path, and the program changes its working directory during the history
         case['relpath'] = draw(st.sampled_from(['existing', 'new']))
         for _ in range(draw(st.integers(1, 3))):
             j = draw(st.integers(0, len(case['ops'])))
